@@ -94,6 +94,23 @@ def unit_eos():
     return res
 
 
+SHOCK_NATIVE = r"""
+import json, io, contextlib, warnings
+import numpy as np
+warnings.simplefilter('ignore')
+from exactpack.solvers.sedov.sedov import Sedov
+bad = {}
+for kw in (dict(geometry=3, gamma=1.4, omega=1.0), dict(geometry=2, gamma=1.6, omega=0.5, rho0=1.3, eblast=0.4), dict(geometry=1, gamma=1.4, omega=0.3), dict(geometry=3, gamma=1.4, omega=2.4)):
+    with contextlib.redirect_stdout(io.StringIO()): s = Sedov(**kw); s(np.array([0.2, 0.5]), 0.3)
+    g = kw['gamma']; us, u2, r1, r2_, p2 = float(s.us), float(s.u2), float(s.rho1), float(s.rho2), float(s.p2)
+    with contextlib.redirect_stdout(io.StringIO()): ra = float(s.r2); s(np.array([0.2, 0.5]), 0.3001); rb = float(s.r2)
+    res = {'mass': r2_ * (us - u2) / (r1 * us) - 1, 'momentum': (p2 + r2_ * (us - u2) ** 2) / (r1 * us ** 2) - 1, 'energy': (g / (g - 1) * p2 / r2_ + (us - u2) ** 2 / 2) / (us ** 2 / 2) - 1, 'shock speed = d r2/dt': (rb - ra) / 1e-4 / us - 1}
+    for k, v in res.items():
+        if abs(v) > 1e-3: bad['%s %s' % (k, kw)] = float(v)
+print(json.dumps({'reproduced': bool(bad), 'relative residuals above 1e-3 at t = 0.3': bad}))
+"""
+
+
 def unit_shock(pid, j):
     """C02 / C17: the shock state computed by the prefix of Sedov._run (r2, us, rho1, rho2, u2, p2), every constructor path without special singularity."""
     res = {'obligations': [], 'functions': [{'ref': SRC + '::Sedov._run', 'sha256_16': R.source_hash(R.func_ref(SRC + '::Sedov._run'))}, {'ref': SRC + '::Sedov.__init__', 'sha256_16': R.source_hash(R.func_ref(SRC + '::Sedov.__init__'))}], 'engine_errors': []}; O = res['obligations']
@@ -122,7 +139,9 @@ def unit_shock(pid, j):
             O.append(core.prove_valid(base + '/shock:density_rises', hy, sp.simplify(rho2 / rho1) > 1, goal_text='rho2 / rho1 > 1 (compressive)'))
             O.append(core.prove_valid(base + '/shock:pressure_rises', hy, p2 > 0, goal_text='p2 > p1 = 0'))
             O.append(core.prove_valid(base + '/shock:moves_outwards', hy, sp.And(us > 0, u2 > 0, u2 < us), goal_text='0 < u2 < us'))
-    for o_ in O: o_.pop('cex_raw', None)
+    for o_ in O:
+        if o_['status'] == 'refuted' and not o_.get('replay'): o_['replay'] = SHOCK_NATIVE
+        o_.pop('cex_raw', None)
     return res
 
 
